@@ -564,7 +564,7 @@ func (v *View) checkC04(res *Result) {
 				break
 			}
 		}
-		if a.Result == "true" && (v.heldAt(a.Inst, a.CallVT) || v.heldAt(a.Inst, a.RetVT)) {
+		if a.Result == "true" && (v.heldAt(a.Inst, a.CallVT) || v.heldAt(a.Inst, a.RetVT) || v.heldAtSeq(a.Inst, a.Call) || v.heldAtSeq(a.Inst, a.Ret)) {
 			// the library is stopped inside a call into user code of this instance (possibly
 			// between raising the leadership flag and publishing the term): the oracle's view of
 			// the term boundaries is not reliable for this call
@@ -583,7 +583,10 @@ func (v *View) checkC04(res *Result) {
 						continue
 					}
 					p := DecodePayload([]byte(ver.val))
-					if p.HasID(a.Inst) && p.HasToken(t.Token) {
+					// (p.Object: the value as a whole is one JSON object - "malformed record" is one of
+					// the situations the property lists under false, and bytes that merely begin with
+					// a well-formed record are malformed)
+					if p.Object && p.HasID(a.Inst) && p.HasToken(t.Token) {
 						ok = true
 					}
 				}
@@ -1004,9 +1007,23 @@ func (v *View) checkC10(res *Result) {
 				continue
 			}
 			// running: its latest Start before the term returned ok at least H earlier, no stop call since
+			// (a term that began while faults were still going on and is still running when
+			// they have ceased - PromptAfter - is an obligation from that moment on: fault-free
+			// conditions, a higher-priority takeover-enabled instance next to a lower-priority leader)
+			base := t.UpVT
+			late := v.Spec.PromptAfter > 0 && t.UpVT < v.Spec.PromptAfter
+			if late {
+				base = v.Spec.PromptAfter
+				if t.Down >= 0 && t.DownVT <= base {
+					continue
+				}
+			}
 			var st *APICall
 			for _, a := range v.APIs {
-				if a.Inst != is.Name || a.Ret < 0 || a.Ret > t.Up {
+				if a.Inst != is.Name || a.Ret < 0 {
+					continue
+				}
+				if (!late && a.Ret > t.Up) || (late && a.RetVT > base) {
 					continue
 				}
 				if a.API == "Start" && a.Result == "ok" {
@@ -1015,14 +1032,17 @@ func (v *View) checkC10(res *Result) {
 					st = nil
 				}
 			}
-			if st == nil || t.UpVT-st.RetVT < is.H || t.UpVT < v.Spec.PromptAfter {
+			if st == nil || base-st.RetVT < is.H {
 				continue
 			}
-			dl := t.UpVT + 3*io.H
-			if is.H > io.H {
-				dl = t.UpVT + 3*is.H
+			if late {
+				res.Obs["c10.prompt_obligations_after_faults"]++
 			}
-			dl = v.extend(t.UpVT, dl)
+			dl := base + 3*io.H
+			if is.H > io.H {
+				dl = base + 3*is.H
+			}
+			dl = v.extend(base, dl)
 			if dl > v.End {
 				continue
 			}
@@ -1051,7 +1071,11 @@ func (v *View) checkC10(res *Result) {
 			}
 			res.Obs["c10.prompt_obligations_term"]++
 			if !got {
-				res.viol("C10", "promptness", "takeover-not-within-3H:term", fmt.Sprintf("%s (prio %d, takeover) ran as a follower beside leader %s (prio %d, term from %v) and was not leader by %v", is.Name, is.Priority, t.Inst, io.Priority, t.UpVT, dl), t.Up)
+				sig := "takeover-not-within-3H:term"
+				if late {
+					sig += ":running-when-faults-ceased"
+				}
+				res.viol("C10", "promptness", sig, fmt.Sprintf("%s (prio %d, takeover) ran as a follower beside leader %s (prio %d, term from %v; fault-free from %v) and was not leader by %v", is.Name, is.Priority, t.Inst, io.Priority, t.UpVT, base, dl), t.Up)
 			}
 		}
 	}
